@@ -70,9 +70,20 @@ def osm_route(ctx: Ctx):
                               f"distinct positions on adjacent links get an empty route", construct="OSMRoadNetwork.route:empty-inner-as-failure")
             continue
         n_ok += 1
-        astar = f"nx.astar_path(self.graph, {on}, {dn}, heuristic=_astar_cost_heuristic, weight=TIME_WEIGHT)"
-        want = f"resolve_route_src_dst_positions(route_from_nx_path({astar}, self.link_helper.links)[1], {o}, {d}, self)"
-        ctx.check(v == want, "D1", "DU.route", "route = resolve(origin link .. links of the A* node path from the END node of the origin link to the START node of the destination link .. destination link)", fn, p.end,
+        # the node path may be any expression whose alternatives all run from the END node of the origin link to the
+        # START node of the destination link (a search call with those endpoints, or an explicit node list)
+        def node_path_ok(e):
+            if isinstance(e, ast.IfExp):
+                return node_path_ok(e.body) and node_path_ok(e.orelse)
+            if isinstance(e, ast.Call) and flow.dump(e.func).startswith("nx.") and len(e.args) >= 3:
+                return flow.dump(e.args[0]) == "self.graph" and flow.dump(e.args[1]) == on and flow.dump(e.args[2]) == dn
+            if isinstance(e, (ast.List, ast.Tuple)) and e.elts:
+                return flow.dump(e.elts[0]) == on and flow.dump(e.elts[-1]) == dn
+            return False
+        m = flow.match(f"resolve_route_src_dst_positions(route_from_nx_path(M_path, self.link_helper.links)[1], {o}, {d}, self)", p.value)
+        good = m is not None and node_path_ok(m["M_path"])
+        want = "resolve(...)"
+        ctx.check(good, "D1", "DU.route", "route = resolve(origin link .. links of the A* node path from the END node of the origin link to the START node of the destination link .. destination link)", fn, p.end,
                   why_bad=f"returns {v[:300]}", construct="OSMRoadNetwork.route:assembly")
     if n_ok < 1:
         ctx.soft_fail("OSMRoadNetwork.route: no assembling path")
